@@ -4,3 +4,5 @@ import PoorModel.HeaderValue
 import PoorModel.Drv.Range
 import PoorModel.Reader
 import PoorModel.Drv.Reader
+import PoorModel.Token
+import PoorModel.Drv.Token
